@@ -266,4 +266,8 @@ func init() {
 		"		if namesSeen.Contains(name) {", "		if namesSeen.Contains(name) && !skipExisting {", "C15.R5.names")
 	mut("C15", "a virtual channel may reuse the key of an existing unary channel", "cesium/channel.go",
 		"	if unaryExists || virtualExists {", "	if (unaryExists && !ch.Virtual) || virtualExists {", "C15.R6.newkey")
+	mut("C15", "a failed ontology clean-up of a single-channel delete is ignored", "core/pkg/distribution/channel/lease_proxy.go",
+		"	if err := s.maybeDeleteResources(ctx, tx, keys); err != nil {\n		return err\n	}\n	// It's very important that this goes last", "	if err := s.maybeDeleteResources(ctx, tx, keys); err != nil && len(keys) > 1 {\n		return err\n	}\n	// It's very important that this goes last", "C15.ERR")
+	mut("C18", "a failed subject resolution is ignored inside a transaction", "core/pkg/service/access/rbac/service.go",
+		"	keys, err := e.policy.ResolveSubjects(ctx, e.tx, subject)\n	if err != nil {", "	keys, err := e.policy.ResolveSubjects(ctx, e.tx, subject)\n	if err != nil && e.tx == nil {", "C18.ERR")
 }
